@@ -7,7 +7,7 @@ from checks.formlib import cs, out_term
 HEADER = """From Coq Require Import ZArith NArith List Bool.
 From CE Require Import Str Comp Formula FormulaSpec FormulaCheck RenderCheck.
 Import ListNotations."""
-THEOREMS = []
+THEOREMS = ["C07_canonical", "C07_order", "C07_render_parse", "C07_table_shapes"]
 
 
 def run(run, args):
